@@ -290,6 +290,7 @@ type Call struct {
 	Ctx           context.Context
 	cancel        func(error)
 	Skip          []int // per-node function returns nil for these endpoints (1-based)
+	Empty         []int // per-node function returns a valid message with every field at its default for these endpoints
 	NoSendWaiting bool
 	// Verdict is the quorum function's decision for one invocation (nil: threshold 1).
 	Verdict func(inv *QFInv)
@@ -360,6 +361,11 @@ func (c *Call) skips(node int) bool {
 func (c *Call) PerNode(r *dev.Request, id uint32) *dev.Request {
 	if c.skips(int(id)) {
 		return nil
+	}
+	for _, e := range c.Empty {
+		if e == int(id) {
+			return &dev.Request{} // a legal message: node id must receive it
+		}
 	}
 	return &dev.Request{Value: fmt.Sprintf("%s/n%d", r.Value, id)}
 }
